@@ -277,15 +277,21 @@ def rotMove2 (S : State) (r : Nat) (alpha c beta : List Int) : M RotCtx := do
   sendAll f
   pure ⟨u, lt, f⟩
 
-/-- third move of the prover: `λ_r = λ - Σ_{j≠r} λ_j`, `t_r = u + λ_r Σ_j s_j β_j` -/
-def rotMove3 (S : State) (r : Nat) (s beta : List Int) (x : RotCtx) (lambda : Int) : M Unit := do
+/-- the responses `λ_k`, `t_k`: `λ_r = λ - Σ_{j≠r} λ_j`, `t_r = u + λ_r Σ_j s_j β_j` -/
+def rotResp (q : Int) (r : Nat) (s beta : List Int) (x : RotCtx) (lambda : Int) :
+    List Int × List Int :=
   let n := beta.length
-  let q := S.G.q
   let others := sumMod q (((List.range n).filter (· ≠ r)).map (x.lam r))
   let lamr := (lambda - others + q) % q
   let tr := (x.u + dotMod q s beta * lamr % q) % q
-  sendAll ((List.range n).map fun j => if j = r then lamr else x.lam r j)
-  sendAll ((List.range n).map fun j => if j = r then tr else x.t r j)
+  ((List.range n).map fun j => if j = r then lamr else x.lam r j,
+   (List.range n).map fun j => if j = r then tr else x.t r j)
+
+/-- third move of the prover -/
+def rotMove3 (S : State) (r : Nat) (s beta : List Int) (x : RotCtx) (lambda : Int) : M Unit := do
+  let resp := rotResp S.G.q r s beta x lambda
+  sendAll resp.1
+  sendAll resp.2
 
 /-- `HooghSchoenmakersSkoricVillegasPUBROTZK::Prove_*` -/
 def rotProve (mode : Mode) (S : State) (r : Nat) (s alpha c : List Int) : M Unit := do
@@ -398,12 +404,17 @@ def vrheMove2 (S : State) (r : Nat) (s : List Int) (Y : List Card) (alpha : List
   pure ⟨ar, ut, opm, hk, Ak, v, fk, Fk⟩
 
 /-- the responses `τ_k = o_k + λ α_{k-r}`, `ρ_k = p_k + λ u_k`, `μ_k = m_k + λ t_k` -/
+def vrheResp (q : Int) (n : Nat) (x : VrheCtx) (lambda : Int) : List Int × List Int × List Int :=
+  ((List.range n).map fun i => (lambda * x.ar.getD i 0 % q + x.opm.getD (3 * i) 0) % q,
+   (List.range n).map fun i => (lambda * x.ut.getD (2 * i) 0 % q + x.opm.getD (3 * i + 1) 0) % q,
+   (List.range n).map fun i => (lambda * x.ut.getD (2 * i + 1) 0 % q + x.opm.getD (3 * i + 2) 0) % q)
+
+/-- fourth move of the prover -/
 def vrheMove4 (q : Int) (n : Nat) (x : VrheCtx) (lambda : Int) : M Unit := do
-  sendAll ((List.range n).map fun i => (lambda * x.ar.getD i 0 % q + x.opm.getD (3 * i) 0) % q)
-  sendAll ((List.range n).map fun i =>
-    (lambda * x.ut.getD (2 * i) 0 % q + x.opm.getD (3 * i + 1) 0) % q)
-  sendAll ((List.range n).map fun i =>
-    (lambda * x.ut.getD (2 * i + 1) 0 % q + x.opm.getD (3 * i + 2) 0) % q)
+  let resp := vrheResp q n x lambda
+  sendAll resp.1
+  sendAll resp.2.1
+  sendAll resp.2.2
 
 /-- hash input of the second challenge -/
 def vrheHash2 (S : State) (X Y Ak Fk : List Card) (hk fk : List Int) (v : Int) : List Int :=
